@@ -504,3 +504,58 @@ proof fn axiom_utxo_order_total()
 //@ tail
 //@| }
 //@end
+
+// ---- C06: the page cut of get_utxos_from_chain (get_utxos.rs:243-275) ------------------------------------------------------
+// [trusted:stand-in] the public UTXO representation (ic_btc_interface::Utxo / OutPoint / Txid), the internal Txid and the page
+// token: Page::to_bytes is an uninterpreted injective-by-Kani encoding (c06_page_* harnesses) of (tip, height, outpoint)
+#[derive(Clone, Copy)]
+struct PublicTxid { id: u64 }
+struct PublicOutPoint { txid: PublicTxid, vout: u32 }
+struct PublicUtxo { outpoint: PublicOutPoint, value: u64, height: u32 }
+struct Txid { id: u64 }
+uninterp spec fn txid_of(t: PublicTxid) -> Txid;
+uninterp spec fn outpoint_new_spec(t: Txid, vout: u32) -> OutPoint;
+impl Txid {
+    #[verifier::external_body]
+    fn from(t: PublicTxid) -> (r: Txid) ensures r == txid_of(t) { unimplemented!() }
+}
+impl OutPoint {
+    #[verifier::external_body]
+    fn new(txid: Txid, vout: u32) -> (r: OutPoint) ensures r == outpoint_new_spec(txid, vout) { unimplemented!() }
+}
+struct Page { tip_block_hash: BlockHash, height: u32, outpoint: OutPoint }
+uninterp spec fn page_bytes_spec(tip: BlockHash, height: u32, outpoint: OutPoint) -> Seq<u8>;
+impl Page {
+    #[verifier::external_body]
+    fn to_bytes(&self) -> (r: Vec<u8>) ensures r@ == page_bytes_spec(self.tip_block_hash, self.height, self.outpoint) { unimplemented!() }
+}
+//@slice file=canister/src/api/get_utxos.rs item="fn get_utxos_from_chain" from="let (utxos_to_take, overflow) = utxo_limit.overflowing_add(1);" to="assert!(!overflow" props=C06
+//@ head
+//@| // R8 slice: how many elements are pulled from the merged stream: one more than a page holds
+//@| fn get_utxos_take_count(utxo_limit: usize) -> (r: usize)
+//@|     requires utxo_limit < usize::MAX,
+//@|     ensures r == utxo_limit + 1,
+//@| {
+//@ tail
+//@|     utxos_to_take
+//@| }
+//@end
+//@slice file=canister/src/api/get_utxos.rs item="fn get_utxos_from_chain" from="let rest = utxos.split_off" to="let next_page = rest.first().map(|next| {" props=C06
+//@ rewrite R9 "\.map\(\|next\| \{" => ".map(|next: &PublicUtxo| -> (vp_b: Vec<u8>) ensures vp_b@ == page_bytes_spec(*tip_block_hash, next.height, outpoint_new_spec(txid_of(next.outpoint.txid), next.outpoint.vout)) {"
+//@ head
+//@| // R8 slice: the page cut. `utxos_in` is what the (unverified) take(limit+1)/map/collect pipeline produced
+//@| fn get_utxos_page_cut(utxos_in: Vec<PublicUtxo>, utxo_limit: usize, tip_block_hash: &BlockHash) -> (r: (Vec<PublicUtxo>, Option<Vec<u8>>))
+//@|     ensures
+//@|         // at most `limit` elements per page: the first min(len, limit) elements, in order
+//@|         r.0@ == utxos_in@.subrange(0, if utxos_in@.len() <= utxo_limit { utxos_in@.len() as int } else { utxo_limit as int }),
+//@|         // a next page is announced iff something was left over, and its token names this response's tip and the FIRST
+//@|         // omitted element (so that the next page resumes exactly there: nothing skipped, nothing repeated)
+//@|         r.1.is_some() <==> utxos_in@.len() > utxo_limit,
+//@|         r.1 matches Some(b) ==> b@ == page_bytes_spec(*tip_block_hash, utxos_in@[utxo_limit as int].height,
+//@|             outpoint_new_spec(txid_of(utxos_in@[utxo_limit as int].outpoint.txid), utxos_in@[utxo_limit as int].outpoint.vout)),
+//@| {
+//@|     let mut utxos = utxos_in;
+//@ tail
+//@|     (utxos, next_page)
+//@| }
+//@end
